@@ -812,6 +812,7 @@ class ObjMixin:
         return v
 
     def call_function(self, fi: FuncInfo, args, kwargs, force_body=False):
+        # (see _memo_key below for memoised functions)
         if not force_body and fi.fq in self.summaries and fi.fq not in self.no_summary:
             self.ctx.summaries_used[fi.fq] = self.ctx.summaries_used.get(fi.fq, 0) + 1
             return self.summaries[fi.fq](self, fi, args, kwargs)
@@ -827,7 +828,18 @@ class ObjMixin:
         cached = getattr(fi, 'cached', False)
         prev_func = self.hooks.get('cur_func')
         self.hooks['cur_func'] = fi.fq
+        memo_key = None
         if cached:
+            # functools.cache hands out the *same object* for equal arguments: a caller that edits the result in place edits
+            # what every later caller gets.  Results are therefore kept per argument tuple (concrete values by value, objects
+            # and symbolic terms by identity - equal terms are equal values; unequal terms may still be equal values, in which
+            # case the body runs again and yields a fresh object: aliasing is then under-approximated, never invented)
+            memo_key = _memo_key(fi.fq, args, kwargs)
+            store = self.hooks.setdefault('memo_results', {})
+            if memo_key is not None and memo_key in store:
+                self.depth -= 1
+                self.hooks['cur_func'] = prev_func
+                return store[memo_key]
             self.hooks.setdefault('memoised_stack', []).append(fi.fq)
             self.ctx.memoised_entered.add(fi.fq)
         try:
@@ -838,7 +850,11 @@ class ObjMixin:
             try:
                 self.exec_block(fi.node.body, fr)
             except _Return as r:
+                if memo_key is not None:
+                    self.hooks['memo_results'][memo_key] = r.value
                 return r.value
+            if memo_key is not None:
+                self.hooks['memo_results'][memo_key] = None
             return None
         finally:
             self.depth -= 1
@@ -953,3 +969,28 @@ class ObjMixin:
                 return v.default
             self.raise_('TypeError', f'missing required argument {name}')
         return v
+
+
+
+def _memo_key(fq, args, kwargs):
+    import z3
+    from fractions import Fraction
+
+    def k(v):
+        if v is None or isinstance(v, (str, int, bool, float, Fraction)):
+            return ('v', type(v).__name__, v)
+        if isinstance(v, tuple):
+            return ('t',) + tuple(k(x) for x in v)
+        if z3.is_expr(v):
+            return ('z', v.get_id())
+        try:
+            hash(v)
+            if type(v).__eq__ is not object.__eq__:
+                return ('h', v)
+        except TypeError:
+            pass
+        return ('id', id(v))
+    try:
+        return (fq, tuple(k(a) for a in args), tuple(sorted((n, k(v)) for n, v in kwargs.items())))
+    except Exception:   # noqa
+        return None
